@@ -686,13 +686,13 @@ def run(ctx):
     rng = ctx.rng
     corpus_witness(ctx)
     terms, expect = [], []
-    for _ in range(ctx.n(24, 300)):
+    for _ in range(ctx.n(24, 180)):
         access_case(ctx, rng, terms, expect)
-    for j in range(ctx.n(14, 210)):
+    for j in range(ctx.n(14, 126)):
         access_case(ctx, rng, terms, expect, new_kind=["sc3ph", "3ph", "est", "est_bb", "sc1ph", "sc_prefault", "est_results"][j % 7])
-    for _ in range(ctx.n(30, 500)):
+    for _ in range(ctx.n(30, 300)):
         start_vector_case(ctx, rng, terms, expect)
-    for _ in range(ctx.n(10, 250)):
+    for _ in range(ctx.n(10, 150)):
         start_vector_case(ctx, rng, terms, expect, aux=True)
     model = ctx.coq_eval("c09", "Base.QN C09.Model", terms, shard=100, timeout=900)
     for (kind, obs, unknown, out), m in zip(expect, model):
@@ -719,7 +719,7 @@ def run(ctx):
                 ctx.disagreement("fields read before written during %s: impl %s / model %s" % (kind, obs, sorted(set(m))), {"kind": kind})
             elif out != "ok" and not set(obs) <= set(m):
                 ctx.disagreement("fields read before written during failing %s: impl %s not within model %s" % (kind, obs, sorted(set(m))), {"kind": kind})
-    for k in range(ctx.n(16, 400)):
+    for k in range(ctx.n(16, 240)):
         history_case(ctx, rng, k)
 
 
